@@ -278,6 +278,10 @@ class Generator:
                 cur = None
             elif s.startswith("//@panic_state "):
                 spec.panic_state = s[len("//@panic_state "):].strip()
+                if "old(self)" in spec.panic_state:
+                    # `old(..)` is not accepted inside a Ghost(..) argument: snapshot the entry value instead
+                    spec.panic_state = spec.panic_state.replace("old(self)", "__s0")
+                    spec.entry.insert(0, "        let ghost __s0 = *self;")
                 cur = None
             elif s.startswith("//@contract"):
                 cur = spec.contract
@@ -397,6 +401,7 @@ class Generator:
             fb.opts["attrs"] = (at + "," if at else "") + "verifier::external_body"
             fb.entry, fb.loops, fb.before, fb.after, fb.tail = [], {}, [], [], []
             fb.replace, fb.calls, fb.unsafe_stub = [], [], {}
+            fb.panic_state = None
             fb._is_free_copy = True
             n0 = len(self.fns)
             self.emit_fn_inner(fb)
@@ -418,6 +423,7 @@ class Generator:
         intrait._is_free_copy = True
         # the in-trait copy needs no hints
         intrait.entry, intrait.loops, intrait.before, intrait.after, intrait.tail = [], {}, [], [], []
+        intrait.panic_state = None
         n0 = len(self.fns)
         self.emit_fn_inner(intrait)
         self.fns[n0]["assumed"] = True
@@ -748,7 +754,10 @@ class Generator:
                                 self.count("R2-assert_eq")
                             if spec.valid:
                                 if spec.panic_state:
-                                    new = "rt_assert_st(%s, Ghost(__valid), Ghost(%s))" % (cond, spec.panic_state)
+                                    ps = spec.panic_state
+                                    if getattr(spec, "_free_name", None):
+                                        ps = re.sub(r"\bself\b", "self_", ps)
+                                    new = "{ let ghost __ps: bool = (%s); rt_assert_st(%s, Ghost(__valid), Ghost(__ps)) }" % (ps, cond)
                                 else:
                                     new = "rt_assert(%s, Ghost(__valid))" % cond
                                 self.count("R1-rt_assert")
